@@ -1,5 +1,6 @@
 import ErbiumModel.Lemmas.Pool
 import ErbiumModel.Generated.Dhcp
+import ErbiumModel.Props.C13
 /-! # C10 — lease times are bounded and never outlive the server's own record -/
 namespace Erbium.Props.C10
 open Erbium Erbium.Pool
@@ -46,6 +47,15 @@ theorem C10_start_le_expiry {st} (h : Reach st) : ∀ r ∈ st.rows, r.start ≤
     · simp [grantRow]
     · exact ih r (List.mem_filter.mp hr).1
   | restart _ ih => exact ih
+
+/-- **C10 (present).** Every OFFER and every ACK produced by `handle_pkt` carries option 51 with
+    the granted lease time, within the default bounds, equal to the recorded duration. -/
+theorem C10_offer_and_ack_carry_lease_time {cfg req ids st r st'}
+    (h : Dhcp.Handles cfg req ids st (some r) st') :
+    ∃ L, Dhcp.lookupOpt r.options 51 = some (Dhcp.ser32 (L % 2 ^ 32)) ∧
+      Generated.Dhcp.defaultMinLease ≤ L ∧ L ≤ Generated.Dhcp.defaultMaxLease ∧
+      ∃ row, rowOf st'.rows r.yiaddr = some row ∧ row.expiry - row.start = L :=
+  C13.C10_reply_has_lease_time h
 
 example : clamp 0 300 86400 = 300 ∧ clamp 900 300 86400 = 900 ∧ clamp (3 * 40000) 300 86400 = 86400 := by decide
 
